@@ -75,6 +75,10 @@ func pairKey(a, b string) string { return a + " -> " + b }
 
 // judgeScopeVerdict compares the tool's Scope section with the reference scope errors.
 func judgeScopeVerdict(c *Ctx, conf *cfg.Config, run *cli.Run, files map[string]string) {
+	judgeScopeVerdictOpt(c, conf, run, files, true)
+}
+
+func judgeScopeVerdictOpt(c *Ctx, conf *cfg.Config, run *cli.Run, files map[string]string, onlyDefect bool) {
 	g := ref.BuildGraph(conf)
 	want := map[string]bool{}
 	for _, p := range ref.ScopeErrors(conf, g) {
@@ -123,7 +127,7 @@ func judgeScopeVerdict(c *Ctx, conf *cfg.Config, run *cli.Run, files map[string]
 	if len(want) == 0 && sec.Status == "fail" {
 		c.Violate("scope-rejected-without-conflict", "configuration rejected for scope reasons without a shared->contextual dependency\n"+run.Res.Stdout, files)
 	}
-	if len(want) > 0 && run.Res.Exit == 0 {
+	if len(want) > 0 && run.Res.Exit == 0 && (onlyDefect || true) {
 		c.Violate("scope-conflict-accepted", fmt.Sprintf("configuration with scope conflicts %v was accepted", keys(want)), files)
 	}
 }
@@ -176,7 +180,17 @@ func checkC05(c *Ctx) error {
 					sc[i] = scopeChoices[y%len(scopeChoices)]
 					y /= len(scopeChoices)
 				}
-				jobs = append(jobs, job{scopeGraphConfig(n, ek, sc), fmt.Sprintf("n%d/e%d/s%d", n, e, s)})
+				conf := scopeGraphConfig(n, ek, sc)
+				jobs = append(jobs, job{conf, fmt.Sprintf("n%d/e%d/s%d", n, e, s)})
+				// the same structure with an undefined dependency next to the real ones (sorting before / after every
+				// service name); run with --ignore-missing-services, the scope verdict must not change
+				if (e+s)%5 == 0 && n >= 2 {
+					dang := conf.Clone()
+					who := (e + s) % n
+					missing := []string{"aaa", "zzz"}[(e/5+s)%2]
+					dang.Services[who].Args = append([]cfg.Val{cfg.Str("@" + missing)}, dang.Services[who].Args...)
+					jobs = append(jobs, job{&dang, fmt.Sprintf("n%d/e%d/s%d/dangling", n, e, s)})
+				}
 			}
 		}
 	}
@@ -185,7 +199,7 @@ func checkC05(c *Ctx) error {
 	if !exhaustive {
 		r := rand.New(rand.NewSource(c.Seed))
 		r.Shuffle(len(jobs), func(i, j int) { jobs[i], jobs[j] = jobs[j], jobs[i] })
-		jobs = jobs[:3000]
+		jobs = jobs[:3500]
 	}
 	c.Set("small_graphs_run", len(jobs))
 	c.Set("small_graphs_exhaustive", exhaustive)
@@ -195,7 +209,11 @@ func checkC05(c *Ctx) error {
 		yaml := j.conf.YAML()
 		_ = work.WriteFile(filepath.Join(dir, "in.yaml"), []byte(yaml))
 		out := filepath.Join(dir, "out.go")
-		run := cli.Do(w, "", nil, dir, out, "build", "-i", "in.yaml", "-o", out)
+		args := []string{"build", "-i", "in.yaml", "-o", out}
+		if strings.HasSuffix(j.key, "/dangling") {
+			args = append(args, "--ignore-missing-services")
+		}
+		run := cli.Do(w, "", nil, dir, out, args...)
 		files := map[string]string{"input/in.yaml": yaml, "stdout.txt": run.Res.Stdout}
 		for _, b := range run.Contract() {
 			c.Violate("cli-contract:"+sigWords(b), b+"\n"+run.Res.Stdout+run.Res.Stderr, files)
@@ -235,7 +253,7 @@ func checkC05(c *Ctx) error {
 			break
 		}
 		g := ref.BuildGraph(j.conf)
-		if len(ref.ScopeErrors(j.conf, g)) > 0 {
+		if len(ref.ScopeErrors(j.conf, g)) > 0 || strings.HasSuffix(j.key, "/dangling") {
 			continue
 		}
 		r := rand.New(rand.NewSource(c.Seed + int64(k)))
